@@ -11,7 +11,7 @@
             V <step> dfree   ... free event for an address that is not registered live
    The audit never dereferences an address that is not a registered live object.
 
-   usage: heap_trace file.nvm|file.asm [max_steps]          trace on stdout, program output discarded (or NANO_TRACE_OUT=1: stderr)
+   usage: heap_trace file.nvm|file.asm [max_steps [audit_every]]          trace on stdout, program output discarded (or NANO_TRACE_OUT=1: stderr)
    Line protocol (consumed by tools/props/c14.py, which feeds the I lines to the extracted Coq model):
      I <step> <ip> <opcode-hex> <name> <nops> <operand>... | p <v0> <v1> <v2> | c <arity> <locals> <isclos> | k <key> | d <delta> | e <t0> <t1> <t2>
          v = i<int64> | r<ord> | n          three topmost stack values BEFORE the instruction (v0 = top)
@@ -42,6 +42,8 @@ static Ent *tab; static size_t tab_cap, tab_used, live_count;
 static uint32_t next_ord;
 static FILE *T;
 static unsigned long violations;
+/* the first 64 violations are printed in full (one dangling object can have 10^5 referrers), all are counted */
+#define VPRINT(...) do { if (violations < 64) fprintf(T, __VA_ARGS__); } while (0)
 static long cur_step = -1;
 
 static size_t hptr(void *p) { uintptr_t x = (uintptr_t)p; x ^= x >> 17; x *= 0x9E3779B97F4A7C15ull; x ^= x >> 29; return (size_t)x; }
@@ -73,13 +75,13 @@ static void tab_grow(void) {
 static void heap_cb(int event, void *obj, uint8_t type) {
     if (event == 1) {
         Ent *e = tab_find(obj);
-        if (e) { fprintf(T, "V %ld realloc-live ord=%u\n", cur_step, e->ord); violations++; e->state = 2; live_count--; }
+        if (e) { VPRINT("V %ld realloc-live ord=%u\n", cur_step, e->ord); violations++; e->state = 2; live_count--; }
         tab_insert(obj, next_ord, type);
         fprintf(T, "A %u %u\n", next_ord, type);
         next_ord++;
     } else {
         Ent *e = tab_find(obj);
-        if (!e) { fprintf(T, "V %ld dfree addr-not-live type=%u\n", cur_step, type); violations++; return; }
+        if (!e) { VPRINT("V %ld dfree addr-not-live type=%u\n", cur_step, type); violations++; return; }
         fprintf(T, "F %u %u\n", e->ord, e->type);
         e->state = 2; live_count--;
     }
@@ -104,16 +106,19 @@ static void see(NanoValue v, const char *where, long idx, long owner) {
     if (v.as.obj == NULL) return;                  /* vm_retain/vm_release ignore NULL */
     Ent *e = tab_find(v.as.obj);
     if (!e) {
-        fprintf(T, "V %ld dangling %s[%ld] owner=%ld tag=%u (address is not a live registered object)\n", cur_step, where, idx, owner, v.tag);
+        VPRINT("V %ld dangling %s[%ld] owner=%ld tag=%u (address is not a live registered object)\n", cur_step, where, idx, owner, v.tag);
         violations++; return;
     }
     if (e->type != v.tag) {
-        fprintf(T, "V %ld tagmis %s[%ld] owner=%ld tag=%u objtype=%u ord=%u\n", cur_step, where, idx, owner, v.tag, e->type, e->ord);
+        VPRINT("V %ld tagmis %s[%ld] owner=%ld tag=%u objtype=%u ord=%u\n", cur_step, where, idx, owner, v.tag, e->type, e->ord);
         violations++;
     }
     e->indeg++;
 }
-static void audit(VmState *vm) {
+static void audit_inner(VmState *vm);
+/* a violation found by the audit is often followed by a crash of the VM (abort() does not flush stdio): flush at once */
+static void audit(VmState *vm) { unsigned long v0 = violations; audit_inner(vm); if (violations != v0) fflush(T); }
+static void audit_inner(VmState *vm) {
     for (size_t i = 0; i < tab_cap; i++) if (tab[i].state == 1) tab[i].indeg = 0;
     for (uint32_t i = 0; i < vm->stack_size; i++) see(vm->stack[i], "stack", i, -1);
     for (uint32_t i = 0; i < VM_MAX_GLOBALS; i++) see(vm->globals[i], "global", i, -1);
@@ -141,11 +146,11 @@ static void audit(VmState *vm) {
         if (tab[i].state != 1) continue;
         uint32_t rc = ((VmHeapHeader *)tab[i].p)->ref_count;
         if (rc < tab[i].indeg) {
-            fprintf(T, "V %ld under ord=%u tag=%u rc=%u indeg=%u\n", cur_step, tab[i].ord, tab[i].type, rc, tab[i].indeg);
+            VPRINT("V %ld under ord=%u tag=%u rc=%u indeg=%u\n", cur_step, tab[i].ord, tab[i].type, rc, tab[i].indeg);
             violations++;
         }
         if (((VmHeapHeader *)tab[i].p)->obj_type != tab[i].type) {
-            fprintf(T, "V %ld hdrtype ord=%u reg=%u hdr=%u\n", cur_step, tab[i].ord, tab[i].type, ((VmHeapHeader *)tab[i].p)->obj_type);
+            VPRINT("V %ld hdrtype ord=%u reg=%u hdr=%u\n", cur_step, tab[i].ord, tab[i].type, ((VmHeapHeader *)tab[i].p)->obj_type);
             violations++;
         }
     }
@@ -170,6 +175,7 @@ static char pend[512];
 static char pend_elem[64] = "-1 -1 -1";   /* elem_type tag of the arrays among the three topmost stack values before the instruction */
 static uint8_t pend_op; static uint32_t pend_frames, pend_stack;
 static long max_steps = 200000;
+static long audit_every = 1;     /* > 1: sparse mode for very long runs - trace + audit only every n-th instruction (and at the end) */
 
 static void fmt_val(char *out, size_t n, VmState *vm, uint32_t off) {
     if (off >= vm->stack_size) { snprintf(out, n, "n"); return; }
@@ -195,6 +201,12 @@ static void finish_pending(VmState *vm) {
 
 static void step_cb(VmState *vm, const DecodedInstruction *in, uint32_t ip) {
     finish_pending(vm);
+    if (audit_every > 1 && violations > 0) { vm_verif_fuel = 0; return; }
+    if (audit_every > 1 && ((cur_step + 1) % audit_every) != 0) {
+        cur_step++;
+        if (cur_step >= max_steps) vm_verif_fuel = 0;
+        return;
+    }
     cur_step++;
     const InstructionInfo *info = isa_get_info(in->opcode);
     char ops[160]; size_t w = 0; ops[0] = 0;
@@ -250,6 +262,11 @@ static VmResult run_fn(VmState *vm, uint32_t fn) {
     pend_op = OP_RET; pend_frames = vm->frame_count; pend_stack = vm->stack_size; have_pending = 1;
     VmResult r = vm_call_function(vm, fn, NULL, 0);
     finish_pending(vm);
+    if (audit_every > 1) {                           /* sparse mode: the state in which the call ended is always audited */
+        cur_step++;
+        fprintf(T, "I %ld 0 fd FINAL 0 | p n n n | c -1 -1 0 | k -1 | d 0 | e -1 -1 -1\n", cur_step);
+        audit(vm); emit_state(vm);
+    }
     fprintf(T, "E %d %ld %zu %lu %s\n", (int)r, cur_step + 1, live_count, violations, r == VM_OK ? "-" : vm->error_msg);
     return r;
 }
@@ -257,6 +274,7 @@ static VmResult run_fn(VmState *vm, uint32_t fn) {
 int main(int argc, char **argv) {
     if (argc < 2) { fprintf(stderr, "usage: heap_trace file.nvm [max_steps]\n"); return 2; }
     if (argc > 2) max_steps = atol(argv[2]);
+    if (argc > 3) audit_every = atol(argv[3]) > 0 ? atol(argv[3]) : 1;
     T = stdout;
     static char obuf[1 << 16]; setvbuf(T, obuf, _IOFBF, sizeof obuf);
     NvmModule *m = NULL;
@@ -309,6 +327,7 @@ int main(int argc, char **argv) {
     fprintf(T, "I %ld 0 fe DESTROY 0 | p n n n | c -1 -1 0 | k -1 | d 0 | e -1 -1 -1\n", cur_step);
     vm_verif_step_cb = NULL;
     uint32_t gc = vm.global_count;
+    fflush(T);                                       /* teardown of a corrupted heap may abort */
     vm_destroy(&vm);
     fprintf(T, "D %ld %zu %lu %u\n", cur_step, live_count, violations, gc);
     fflush(T);
